@@ -50,6 +50,9 @@ func runC10(p *chk.Prog, r *chk.Report) {
 	c10Guards(p, r)
 	c10Sticky(p, r)
 	canServeRule(p, r)
+	// the node predicates are re-evaluated when they change: a node event that flips network availability or the
+	// exclusion label re-syncs every service (RESYNC, shared with C09)
+	c09Resync(p, r)
 }
 
 func c10Guards(p *chk.Prog, r *chk.Report) {
